@@ -112,14 +112,14 @@ class C06(DevProp):
                 "g": {"mn": mn, "mx": mx, "dzc": dzc, "flip": flip, "kind": kind, "dzbits": bits(dz), "cc": 20, "ccneg": 21},
                 "tag": "%s[%d,%d]" % (kind, mn, mx)}
 
-    def make_multi_case(self, rng, mn, mx):
+    def make_multi_case(self, rng, mn, mx, all_bidi=False):
         """2-3 mappings with different deadzone / flip / kind for the same axis; mapping_up / mapping_down between partial sweeps,
         including the up+down chord (reset to the first mapping) pressed from every mapping."""
         n_maps = rng.choice([2, 3])
         dzs = rng.sample([0.0, 0.05, 0.1, 0.2, 0.33, 0.5], n_maps)
         maps, gs = [], []
         for i in range(n_maps):
-            kind = rng.choice(["cc_uni", "cc_bidi", "pb"])
+            kind = "cc_bidi" if all_bidi else rng.choice(["cc_uni", "cc_bidi", "pb"])
             flip = rng.random() < 0.3
             dzc = mn == 0 and rng.random() < 0.3
             an = agen.analog(agen.ABS_X, "cc" if kind != "pb" else "pitch_bend", cc=20 + 2 * i, ccneg=21 + 2 * i, off=rng.choice([0, 3]),
@@ -193,6 +193,11 @@ class C06(DevProp):
         for i in range(16 if tier == "quick" else 150):
             mn, mx = (RANGES8 + [(-32768, 32767), (0, 1023)])[i % 5]
             cases.append(self.make_multi_case(rng, mn, mx))
+        # every mapping binds the axis to a bidirectional pair with controllers of its own: crossings under one mapping, a switch, crossings
+        # under the other, back (what one mapping remembers about "which side" must not leak into the other)
+        for i in range(4 if tier == "quick" else 30):
+            mn, mx = [(-128, 127), (-32768, 32767), (0, 255), (-127, 127)][i % 4]
+            cases.append(self.make_multi_case(rng, mn, mx, all_bidi=True))
         combos = []
         for (mn, mx) in RANGES8 + RANGES_BIG:
             for flip in (False, True):
